@@ -355,7 +355,12 @@ pub fn process<I: BufRead, O: Write>(
                     _ => break,
                 }
             } else {
-                let mut s = remaining.split("//").next().unwrap().splitn(2, "/*");
+                // A // that comes after a /* on this line belongs to the block comment
+                let code = match (remaining.find("//"), remaining.find("/*")) {
+                    (Some(l), Some(b)) if b < l => remaining,
+                    _ => remaining.split("//").next().unwrap(),
+                };
+                let mut s = code.splitn(2, "/*");
                 // Is there a string start before that point ?
                 let s2 = s.next().unwrap();
                 if !s2.starts_with("#include") && !asm {
